@@ -86,6 +86,17 @@ def sweep_cases(tier):
     for dg in (0, 3, 4, 5, 6, 8, 9, 10, 100):
         out.append(('botp.HOTP', dict(digit=dg, key=K, ctr=bytes(8))))
         out.append(('botp.TOTP', dict(digit=dg, key=K, t=1000)))
+    # sweeps contributed by the other catalogue modules: sweep_cases(tier) -> [(fname, case)], the case's reference
+    # predicate (cat.Fn.ref) names the documented error class
+    for m in corpora.MODULES:
+        try:
+            mod = __import__(m)
+        except ModuleNotFoundError as e:
+            if e.name != m:
+                raise
+            continue
+        if hasattr(mod, 'sweep_cases'):
+            out += mod.sweep_cases(tier)
     return out
 
 def auth_cases(tier):
